@@ -190,6 +190,9 @@ func RunTimedWorld(r sim.Src, mons []*sim.Mon, keepLog bool, sh TimedShape) *sim
 				// backups that hold transactions do not - pools that differ for good are not a synchronous network)
 				o.TxLag = true
 				o.InitialTxs += 1 + r.Intn("lagtx", 6)
+				if r.Intn("foreigntx", 2) == 0 {
+					o.ForeignTxPct = 40
+				}
 			}
 		}
 	case "c16":
